@@ -32,11 +32,15 @@ def goenv():
     e.pop("GOSUMDB", None)      # GOSUMDB=off breaks the offline toolchain switch to go1.25.0
     e.pop("GOTOOLCHAIN", None)
     e.setdefault("GOMAXPROCS", str(NCPU))
+    e["VERIF_REPO"] = os.path.abspath(REPO)
     return e
 
 
+ALT = os.path.abspath(REPO) != "/repo"     # checks pointed at a scratch worktree (seeded-change trials)
+
+
 def scratch(name):
-    d = os.path.join(OUT, name)
+    d = os.path.join(OUT, "%s-%d" % (name, os.getpid()))
     if os.path.isdir(d):
         shutil.rmtree(d, ignore_errors=True)
     os.makedirs(d, exist_ok=True)
@@ -60,12 +64,21 @@ def sync_gosum():
 
 
 def go_build(pkg, name=None, race=False, tags="verif", test=False, timeout=1500):
-    """Build ./cmd/<pkg> (or a test binary with test=True) from /repo's current working tree."""
+    """Build ./cmd/<pkg> (or a test binary with test=True) from /repo's current working tree
+    (or from $VERIF_REPO, a scratch worktree, through an alternative modfile)."""
     sync_gosum()
     os.makedirs(os.path.join(OUT, "bin"), exist_ok=True)
     name = name or (pkg.strip("./").replace("/", "_") + ("_race" if race else ""))
+    if ALT:
+        name += "-alt%d" % os.getpid()
     outp = os.path.join(OUT, "bin", name)
     cmd = ["go", "test", "-c"] if test else ["go", "build"]
+    if ALT:
+        alt = os.path.join(HARNESS, "go.alt%d.mod" % os.getpid())
+        txt = open(os.path.join(HARNESS, "go.mod")).read().replace("=> /repo", "=> " + os.path.abspath(REPO))
+        open(alt, "w").write(txt)
+        shutil.copy(os.path.join(HARNESS, "go.sum"), alt[:-4] + ".sum")
+        cmd += ["-modfile=" + alt]
     cmd += ["-tags", tags, "-o", outp]
     if race:
         cmd.append("-race")
@@ -73,6 +86,10 @@ def go_build(pkg, name=None, race=False, tags="verif", test=False, timeout=1500)
     t0 = time.time()
     p = subprocess.run(cmd, cwd=HARNESS, env=goenv(), stdout=subprocess.PIPE, stderr=subprocess.STDOUT,
                        text=True, timeout=timeout)
+    if ALT:
+        for f in (alt, alt[:-4] + ".sum"):
+            if os.path.exists(f):
+                os.remove(f)
     if p.returncode != 0:
         raise Infra("go build %s failed:\n%s" % (pkg, p.stdout[-4000:]))
     log("[build] %s %s in %.1fs" % (pkg, "(race)" if race else "", time.time() - t0))
@@ -260,6 +277,9 @@ def match_finding(findings, sig):
 # evidence
 
 def write_evidence(pid, tier, seed, level, coverage, wall, violations=0, assumptions=()):
+    global EVID
+    if ALT:      # trial runs against a scratch worktree never touch the committed evidence
+        EVID = os.path.join(OUT, "evidence-alt")
     os.makedirs(EVID, exist_ok=True)
     ev = {"property_id": pid, "tier": tier, "seed": int(seed), "level": level,
           "coverage": coverage, "assumptions": list(assumptions), "wall_s": round(wall, 2),
